@@ -6,7 +6,8 @@ LEVEL = 'proof'
 MU = 2**29
 PATTERNS = {0: 'separate result', 1: 'result = a', 2: 'result = b', 3: 'result = c', 4: 'a = b (one object)', 5: 'result = a = b = c (one object)'}
 FRAME = ['tfhe_bootstrap_FFT', 'tfhe_bootstrap_woKS_FFT', 'tfhe_bootstrap', 'tfhe_bootstrap_woKS', 'lweKeySwitch', 'tLweExtractLweSample', 'tLweExtractLweSampleIndex',
-         'tGswFFTExternMulToTLwe', 'tGswExternMulToTLwe', 'tGswTLweDecompH', 'tfhe_blindRotate_FFT', 'tfhe_blindRotateAndExtract_FFT', 'tLweMulByXaiMinusOne', 'tLweAddTo']
+         'tGswFFTExternMulToTLwe', 'tGswExternMulToTLwe', 'tGswTLweDecompH', 'tfhe_blindRotate_FFT', 'tfhe_blindRotateAndExtract_FFT', 'tLweMulByXaiMinusOne', 'tLweAddTo',
+         'tGswTLweDecompH (noiseless trivial sample)', 'tGswTorus32PolynomialDecompH (zero polynomial)', 'tGswExternProduct (noiseless trivial operand, twice)', 'tfhe_bootstrap_FFT (noiseless trivial input)']
 
 def run(ctx):
     thorough = ctx.tier == 'thorough'
